@@ -335,7 +335,9 @@ class Ctx:
         return obj.get("case", obj)
 
     def write_evidence(self):
-        os.makedirs(os.path.join(VERIF, "evidence"), exist_ok=True)
+        # runs against a scratch tree (VERIF_REPO: seeded changes, mutants) must not overwrite the evidence of /repo
+        evdir = os.path.join(VERIF, "evidence") if os.path.realpath(REPO) == "/repo" else os.path.join(VERIF, ".build", "evidence-alt")
+        os.makedirs(evdir, exist_ok=True)
         cov = dict(self.cov)
         if not cov.get("samples"):
             cov["samples"] = ["(no sample recorded)"]
@@ -345,7 +347,7 @@ class Ctx:
               "wall_s": round(time.time() - self.t0, 2), "violations": len(self.violations)}
         if self.notes:
             ev["notes"] = self.notes
-        p = os.path.join(VERIF, "evidence", self.pid + ".json")
+        p = os.path.join(evdir, self.pid + ".json")
         tmp = p + ".tmp%d" % os.getpid()
         with open(tmp, "w") as f:
             json.dump(ev, f, indent=1, default=str)
